@@ -1,12 +1,10 @@
-use locustdb::verif_api::*;
+use lvh::db; use lvh::evbuf::*; use lvh::util::Outcome;
 fn main() {
-    let c = build_column("x", vec![Push::Strs(vec!["u1_a".into()]), Push::Nulls(1), Push::Strs(vec!["u2_b".into()])]);
-    println!("{}", column_signature(&c));
-    println!("{:?}", decode_column(&c));
-    let c = build_column("x", vec![Push::Nulls(2), Push::Strs(vec!["k1".into(), "k1".into(),"k1".into(),"k2".into(), "k1".into()]), Push::Nulls(1)]);
-    println!("{}", column_signature(&c));
-    println!("{:?}", decode_column(&c));
-    let c2 = build_column("x", vec![Push::StrsPresent(vec!["".into(), "a".into()], vec![false, true])]);
-    println!("{}", column_signature(&c2));
-    println!("{:?}", decode_column(&c2));
+    lvh::util::quiet_panics();
+    let db = db::open(None, &db::Cfg::default()).done().unwrap();
+    let t = TableData { name: "t".into(), len: 3, cols: vec![("id".into(), ColData::I64(vec![0,1,2])), ("n".into(), ColData::SparseI64(vec![(1, 5)])), ("s".into(), ColData::Str(vec!["a".into(),"b".into(),"c".into()]))] };
+    let _ = db::ingest(&db, event_buffer(&[t]));
+    for sql in std::env::args().skip(1) {
+        match db::query(&db, &sql) { Outcome::Done(Ok(a)) => println!("{} -> {:?}", sql, a.rows), Outcome::Done(Err(e)) => println!("{} -> ERR {}", sql, &e[..e.len().min(700)]), o => println!("{} -> {}", sql, o.describe()) }
+    }
 }
